@@ -1,7 +1,8 @@
-(* MQ coder round trip: the full statement, and the BOUNDED result obtained by evaluating the
-   model on every decision sequence of length <= 9 over 2 contexts (vm_compute over the whole
-   set; the bound is part of the statement).  The unbounded theorem is in MqProofsRt2.v if
-   present; see the comment at the end of this file. *)
+(* MQ coder round trip: the full statement (proved in MqProofsRt2.v: mq_roundtrip_holds), and
+   an independent BOUNDED result obtained by evaluating the model on every decision sequence of
+   length <= 9 over 2 contexts (complete enumeration by the kernel's VM; the bound is part of
+   the statement; the property text asks for 16, which is out of reach of in-Coq evaluation
+   within 2 minutes - the Go harness enumerates length <= 12 / 16). *)
 From V Require Import Common.Base MQ.MqModel MQ.MqProofs.
 
 (* ---------- full statement (any valid initial contexts, any decision sequence) ---------- *)
@@ -125,8 +126,3 @@ Proof.
   rewrite mq_encode_2, mq_decode_2. apply rt_ok_from_true.
   exact (rt_dfs_sound0 9 [0; 0] (enc_new 2) l rt_all_9 Hl Hin).
 Qed.
-
-Theorem mq_roundtrip_partial : forall l : list (Z * Z),
-  (length l <= 9)%nat -> Forall (decision_ok 2) l ->
-  mq_decode 2 (mq_encode 2 l) (map snd l) = Ok (map fst l).
-Proof. exact mq_roundtrip_bounded_9. Qed.
